@@ -264,6 +264,7 @@ func (Scans) Run(c choice.Chooser, opt sim.Options) sim.Result {
 		return map[string]any{"call": desc, "policy": out.PolicyName, "schedule": schedule(out), "visits": visits}
 	}
 	res.Sig = fmt.Sprintf("%s/%s", desc, out.Signature())
+	res.DetHash = desc + "/" + out.Decisions
 	res.Cells = []string{fmt.Sprintf("%s|pool%s|n%s", kindNames[kind], bucket(pool), relBucket(n, pool))}
 	res.Nontrivial = interleaved(out)
 	if res.Nontrivial {
